@@ -6,5 +6,6 @@ export CARGO_NET_OFFLINE=true
 python3 tools/extract_params.py > /dev/null
 (cd lean && lake build 2>&1 | tail -3)
 (cd harness && cargo build --offline --locked 2>&1 | tail -2)
-[ -f tools/iorec.c ] && gcc -O2 -shared -fPIC -o .cache/iorec.so tools/iorec.c -ldl || true
+(cargo build --offline --locked --manifest-path /repo/Cargo.toml --bin taskchampion-sync-server --target-dir .cache/target-repo 2>&1 | tail -1)
+mkdir -p .cache && gcc -O2 -shared -fPIC -o .cache/iorec.so tools/iorec.c -ldl -lpthread
 echo "setup done"
